@@ -200,6 +200,11 @@ for a in ('Min', 'Max'):
 rule('number-ast', 'eval', 'Num', ['post'], ['C09', 'C14'])
 rule('number-ast', 'eval', '*', ['post', 'assert'], ['C20'])
 rule('number-ast', 'from*', '*', ['post', 'assert'], ['C18', 'C09', 'C10', 'C15'])
+# C18 "consequently no conversion changes a numeric value": the arms whose job is a conversion (the rounding functions hand the rounded
+# double to Number::from) and the wrapper, which must return the evaluator's Number as it is
+for a in ('Floor', 'Ceil', 'Round', 'Truncate'):
+    rule('number-ast', 'eval', a, ['post', 'assert'], ['C18'])
+rule('number-glue', 'eval_*', '*', ['post', 'precond', 'assert'], ['C18'])
 rule('number-ast', '*', '*', PANIC_KINDS, ['C01'])
 rule('number-ast', '*', '*', ['decreases'], ['C02', 'C01'])
 for a in ('Factorial', 'LambertW', 'ILog'):
